@@ -332,8 +332,11 @@ impl MqttShared {
     fn pkt_ack_inner(&self, pkt: Ack) -> Result<(), ProtocolError> {
         let mut queues = self.queues.borrow_mut();
 
-        // check ack order
-        if let Some((idx, tx, tp)) = queues.inflight.pop_front() {
+        // check ack order, exchange with unwritten PUBREL expects nothing from the peer
+        let pos = queues.inflight.iter().position(|(idx, _, tp)| {
+            !(matches!(tp, AckType::Complete) && queues.rx.contains_key(idx))
+        });
+        if let Some((idx, tx, tp)) = pos.and_then(|pos| queues.inflight.remove(pos)) {
             if idx != pkt.packet_id() {
                 log::trace!(
                     "MQTT protocol error: packet id order does not match; expected {}, got: {}",
@@ -553,9 +556,20 @@ impl MqttShared {
         &self,
         id: num::NonZeroU16,
     ) -> Result<pool::Receiver<Ack>, SendPacketError> {
-        let Some(rx) = self.queues.borrow_mut().rx.remove(&id) else {
+        let mut queues = self.queues.borrow_mut();
+        let Some(rx) = queues.rx.remove(&id) else {
             return Err(SendPacketError::UnexpectedRelease);
         };
+        // PUBCOMP packets arrive in the order PUBREL packets are written
+        let pos = queues
+            .inflight
+            .iter()
+            .position(|(idx, _, tp)| *idx == id && matches!(tp, AckType::Complete));
+        if let Some(item) = pos.and_then(|pos| queues.inflight.remove(pos)) {
+            queues.inflight.push_back(item);
+        }
+        drop(queues);
+
         match self.io.encode(
             Encoded::Packet(codec::Packet::PublishRelease { packet_id: id }),
             &self.codec,
